@@ -652,7 +652,8 @@ class Interp:
             if key in self.module_cache:
                 return self.module_cache[key]
         dotted = f"{module}.{name}"
-        if dotted in self.symconst:
+        hist0 = getattr(self.src.modules.get(module), "history", {}).get(name, []) if module in self.src.modules else []
+        if dotted in self.symconst and len(hist0) <= 1:
             return self.symconst[dotted]
         r = self.src.resolve(module, name)
         if r is None:
@@ -675,7 +676,8 @@ class Interp:
         elif r[0] == "value":
             home_name = r[3] if len(r) > 3 else name
             dotted = f"{r[1]}.{home_name}"
-            if dotted in self.symconst:
+            hist = getattr(self.src.modules.get(r[1]), "history", {}).get(home_name, [])
+            if dotted in self.symconst and len(hist) <= 1:
                 return self.symconst[dotted]
             if (r[1], home_name) != key:
                 # a name imported from another module of the package is the very object that module holds
@@ -683,8 +685,18 @@ class Interp:
                 self.module_cache[key] = v
                 return v
             # the binding may itself be an imported alias evaluated in its home module
-            fr = Frame(self, r[1], r[1])
-            v = self.eval(r[2], fr)
+            if len(hist) > 1 and hist[-1] is r[2]:
+                # X = <table>; X = g(X): successive module-level assignments, each seeing the one before; a value supplied by a
+                # rule (probe table) stands for the first, written-out one
+                v = _MISSING
+                for i_, node_ in enumerate(hist):
+                    fr = Frame(self, r[1], r[1])
+                    if v is not _MISSING:
+                        fr.vars[home_name] = v
+                    v = self.symconst[dotted] if i_ == 0 and dotted in self.symconst else self.eval(node_, fr)
+            else:
+                fr = Frame(self, r[1], r[1])
+                v = self.eval(r[2], fr)
         else:
             raise AnalysisError(f"cannot resolve {module}.{name}")
         self.module_cache[key] = v
